@@ -286,9 +286,9 @@ func TestC12(t *testing.T) {
 		fail := func(err error) { rt.Fatalf("VF-VIOLATION: property=C12 %v", err) }
 		switch kind {
 		case 0: // Blowfish NewCipher, every accepted key length
-			n := rapid.IntRange(1, 56).Draw(rt, "bf.keylen")
+			n := uniform(rt, "bf.keylen", 1, 56)
 			if rapid.IntRange(0, 5).Draw(rt, "bf.edge") == 0 {
-				n = rapid.SampledFrom([]int{1, 2, 3, 4, 5, 7, 8, 9, 55, 56}).Draw(rt, "bf.edgelen")
+				n = pick(rt, "bf.edgelen", []int{1, 2, 3, 4, 5, 7, 8, 9, 55, 56})
 			}
 			key, kfill = gen.Bytes(rt, "key", n)
 			bc, err := blowfish.NewCipher(key)
@@ -299,11 +299,11 @@ func TestC12(t *testing.T) {
 			desc = fmt.Sprintf("blowfish|k%d", n)
 			nontriv = nontriv || n > 24
 		case 1: // NewSaltedCipher followed by ExpandKey calls (the bcrypt usage)
-			n := rapid.IntRange(1, 80).Draw(rt, "bfs.keylen")
+			n := uniform(rt, "bfs.keylen", 1, 80)
 			if rapid.IntRange(0, 3).Draw(rt, "bfs.edge") == 0 {
-				n = rapid.SampledFrom([]int{1, 55, 56, 57, 71, 72, 73, 80}).Draw(rt, "bfs.edgelen")
+				n = pick(rt, "bfs.edgelen", []int{1, 55, 56, 57, 71, 72, 73, 80})
 			}
-			sl := rapid.SampledFrom([]int{0, 1, 3, 4, 7, 8, 15, 16, 16, 16, 17, 31, 32, 64}).Draw(rt, "bfs.saltlen")
+			sl := pick(rt, "bfs.saltlen", []int{0, 1, 3, 4, 7, 8, 15, 16, 16, 16, 17, 31, 32, 64})
 			key, kfill = gen.Bytes(rt, "key", n)
 			salt, _ := gen.Bytes(rt, "salt", sl)
 			var bc *blowfish.Cipher
@@ -320,9 +320,9 @@ func TestC12(t *testing.T) {
 				fail(fmt.Errorf("blowfish.NewSaltedCipher rejected key %d bytes, salt %d bytes: %v", n, sl, err))
 			}
 			st := refkdf.NewBlowfishSalted(key, salt)
-			nexp := rapid.IntRange(0, 3).Draw(rt, "bfs.expands")
+			nexp := uniform(rt, "bfs.expands", 0, 3)
 			for i := 0; i < nexp; i++ {
-				kl := rapid.IntRange(1, 80).Draw(rt, "bfs.explen")
+				kl := uniform(rt, "bfs.explen", 1, 80)
 				ek, _ := gen.Bytes(rt, "expkey", kl)
 				if perr := noPanic(func() { blowfish.ExpandKey(ek, bc) }); perr != nil {
 					fail(fmt.Errorf("blowfish.ExpandKey(%d-byte key): %v", kl, perr))
@@ -341,7 +341,7 @@ func TestC12(t *testing.T) {
 			name, impl, oracles = "cast5", cc, c12Cast5Oracles(key)
 			desc = "cast5|k16"
 		case 3: // Twofish
-			n := rapid.SampledFrom([]int{16, 24, 32}).Draw(rt, "tf.keylen")
+			n := pick(rt, "tf.keylen", []int{16, 24, 32})
 			key, kfill = gen.Bytes(rt, "key", n)
 			tc, err := twofish.NewCipher(key)
 			if err != nil {
@@ -351,7 +351,7 @@ func TestC12(t *testing.T) {
 			desc = fmt.Sprintf("twofish|k%d", n)
 		case 4: // TEA, default and explicit round counts
 			key, kfill = gen.Bytes(rt, "key", 16)
-			mode := rapid.IntRange(0, 9).Draw(rt, "tea.mode")
+			mode := uniform(rt, "tea.mode", 0, 9)
 			var tc cipher.Block
 			var err error
 			rounds := 64
@@ -359,7 +359,7 @@ func TestC12(t *testing.T) {
 			case mode < 3:
 				tc, err = tea.NewCipher(key)
 			case mode < 9:
-				rounds = 2 * rapid.IntRange(1, 40).Draw(rt, "tea.halfrounds")
+				rounds = 2 * uniform(rt, "tea.halfrounds", 1, 40)
 				tc, err = tea.NewCipherWithRounds(key, rounds)
 				nontriv = nontriv || (rounds != 64 && rounds != 8)
 			default:
@@ -384,18 +384,18 @@ func TestC12(t *testing.T) {
 			name, impl, oracles = "xtea", xc, c12XTEAOracles(key)
 			desc = "xtea|k16"
 		case 6: // RC2 with effective key bits
-			n := rapid.IntRange(1, 128).Draw(rt, "rc2.keylen")
+			n := uniform(rt, "rc2.keylen", 1, 128)
 			if rapid.IntRange(0, 3).Draw(rt, "rc2.edge") == 0 {
-				n = rapid.SampledFrom([]int{1, 2, 5, 7, 8, 16, 33, 64, 127, 128}).Draw(rt, "rc2.edgelen")
+				n = pick(rt, "rc2.edgelen", []int{1, 2, 5, 7, 8, 16, 33, 64, 127, 128})
 			}
 			var t1 int
-			switch rapid.IntRange(0, 5).Draw(rt, "rc2.t1class") {
+			switch uniform(rt, "rc2.t1class", 0, 5) {
 			case 0, 1:
 				t1 = 8 * n // what pkcs12 uses
 			case 2:
-				t1 = rapid.SampledFrom([]int{1, 7, 8, 9, 39, 40, 41, 63, 64, 65, 127, 128, 129, 1023, 1024}).Draw(rt, "rc2.t1edge")
+				t1 = pick(rt, "rc2.t1edge", []int{1, 7, 8, 9, 39, 40, 41, 63, 64, 65, 127, 128, 129, 1023, 1024})
 			default:
-				t1 = rapid.IntRange(1, 1024).Draw(rt, "rc2.t1")
+				t1 = uniform(rt, "rc2.t1", 1, 1024)
 			}
 			key, kfill = gen.Bytes(rt, "key", n)
 			var rc cipher.Block
@@ -407,12 +407,12 @@ func TestC12(t *testing.T) {
 			desc = fmt.Sprintf("rc2|k%d|t%d", n, t1)
 			nontriv = nontriv || !(n == 1 || n == 7 || n == 8 || n == 16 || n == 33) || !(t1 == 63 || t1 == 64 || t1 == 128 || t1 == 129)
 		default: // key lengths and round counts the documentation excludes
-			which := rapid.IntRange(0, 6).Draw(rt, "reject.which")
+			which := uniform(rt, "reject.which", 0, 6)
 			var err error
 			var label string
 			switch which {
 			case 0:
-				n := rapid.SampledFrom([]int{0, 57, 58, 64, 72, 73, 100, 448}).Draw(rt, "reject.bf")
+				n := pick(rt, "reject.bf", []int{0, 57, 58, 64, 72, 73, 100, 448})
 				label = fmt.Sprintf("blowfish.NewCipher(%d-byte key)", n)
 				err = c12Reject(label, func() error { _, e := blowfish.NewCipher(make([]byte, n)); return e })
 				if err == nil && n == 0 {
@@ -443,7 +443,7 @@ func TestC12(t *testing.T) {
 				err = c12Reject(label, func() error { _, e := xtea.NewCipher(make([]byte, n)); return e })
 			default:
 				// the error types carry the offending length
-				n := rapid.SampledFrom([]int{0, 57, 100}).Draw(rt, "reject.bferr")
+				n := pick(rt, "reject.bferr", []int{0, 57, 100})
 				label = fmt.Sprintf("blowfish.KeySizeError(%d)", n)
 				_, e := blowfish.NewCipher(make([]byte, n))
 				if kse, ok := e.(blowfish.KeySizeError); !ok || int(kse) != n {
